@@ -188,3 +188,11 @@ where
 
     (sender, receiver)
 }
+
+/// Verification hooks (add-only, compiled only with `--cfg remoc_verif`).
+#[cfg(remoc_verif)]
+#[allow(missing_docs)]
+pub mod verif {
+    pub use super::receiver::verif_hooks as receiver;
+    pub use super::sender::verif_hooks as sender;
+}
